@@ -117,7 +117,8 @@ def coverage_of(res, extra=None):
         "transitions": res["stats"]["enum"]["generated"] + res["stats"]["trace"]["generated"],
         "traces_validated_against_impl": res["stats"]["n_traces"],
         "samples": samples,
-        "exhaustive": True,
+        "exhaustive": False,   # set by the runner: True only when the whole family was run (thorough tier)
+        "exhaustive_scope": "V(P) is enumerated completely for every problem explored; the family of problems is complete in the thorough tier and a seeded, tag-stratified sample in the quick tier",
         "problems": len(res["problems"]),
         "tags": dict(collections.Counter(p["tag"] for p in res["problems"])),
         "valid_schedules_enumerated": n_v,
@@ -140,7 +141,19 @@ def coverage_of(res, extra=None):
     return cov
 
 
-def encoding_runner(prop, family, directions, opts=None):
+def spec_audit(res, cfg, limit=None):
+    """Self-audit of the specification: the same family enumerated under another configuration of Timeline
+    (declarative calendars, free interleaving) must give exactly the same valid sets.  A difference is a
+    defect of the specification, i.e. a machinery failure (exit 2), never a verdict on the library."""
+    ps = res["problems"][:limit] if limit else res["problems"]
+    V2, st = tlc.enumerate_V(ps, cfg=cfg)
+    diff = [p["id"] for p in ps if set(V2[p["id"]]) != set(res["V"][p["id"]])]
+    if diff:
+        raise RuntimeError(f"specification self-audit failed under {cfg}: valid sets differ for problems {diff[:10]}")
+    return {"config": cfg, "problems": len(ps), **st}
+
+
+def encoding_runner(prop, family, directions, opts=None, audits=(), large=frozenset()):
     def run(tier, seed, replay=None, procs=16):
         if replay:
             problems = [dict(replay["problem"], id=1)]
@@ -153,6 +166,26 @@ def encoding_runner(prop, family, directions, opts=None):
         res = engine.run_family(problems, o, procs=procs)
         viol = collect(prop, res, directions)
         cov = coverage_of(res)
+        cov["exhaustive"] = (tier == "thorough")
+        if not replay and large:
+            # beyond the exhaustive bounds: TLC simulation samples V(P) of larger random problems
+            from families import large as F_large
+            lp = F_large.fam_large(tier, seed)
+            res_l = engine.run_large(lp, {"seed": seed}, procs=procs, num=3000 if tier == "thorough" else 1200)
+            viol += collect(prop, res_l, directions & large)
+            cl = coverage_of(res_l)
+            cov["larger_bounds_by_simulation"] = {k: cl[k] for k in ("problems", "valid_schedules_enumerated", "pins_checked",
+                                                                       "public_api_replays", "traces_validated_against_impl", "inconclusive")}
+            cov["larger_bounds_by_simulation"]["tlc_simulation"] = res_l["stats"]["enum"]
+            cov["states"] += cl["states"]
+            cov["transitions"] += cl["transitions"]
+            cov["traces_validated_against_impl"] += cl["traces_validated_against_impl"]
+        if not replay:
+            for cfg, limit in audits:
+                a = spec_audit(res, cfg, limit if tier != "thorough" else (None if limit is None else limit * 4))
+                cov.setdefault("spec_self_audits", []).append(a)
+                cov["states"] += a["distinct"]
+                cov["transitions"] += a["generated"]
         return {"violations": viol, "coverage": cov, "assumptions": ASSUME_ENC,
                 "summary": f"{len(problems)} problems, |V|={cov['valid_schedules_enumerated']}, "
                            f"{cov['traces_validated_against_impl']} traces, TLC states={cov['states']}"}
@@ -179,17 +212,17 @@ def register():
     from families import tasks, resources, optional, buffers, logic, indicators
     S, Cm = "sound", "complete"
     RUNNERS["C01"] = encoding_runner("C01", tasks.fam_C01, {S})
-    RUNNERS["C02"] = encoding_runner("C02", tasks.fam_C02, {S})
+    RUNNERS["C02"] = encoding_runner("C02", tasks.fam_C02, {S}, audits=[("MC_Timeline_free.cfg", 40)], large=frozenset({S}))
     RUNNERS["C03"] = encoding_runner("C03", tasks.fam_C03, {S})
-    RUNNERS["C04"] = encoding_runner("C04", resources.fam_C04, {S})
+    RUNNERS["C04"] = encoding_runner("C04", resources.fam_C04, {S}, audits=[("MC_Timeline_decl.cfg", None)])
     RUNNERS["C06"] = encoding_runner("C06", optional.fam_C06, {S, Cm, "buffers", "indicators"})
     RUNNERS["C08"] = encoding_runner("C08", indicators.fam_C08, {S, "indicators"})
-    RUNNERS["C09"] = encoding_runner("C09", buffers.fam_C09, {S, "buffers"})
+    RUNNERS["C09"] = encoding_runner("C09", buffers.fam_C09, {S, "buffers"}, audits=[("MC_Timeline_free.cfg", 40)])
     RUNNERS["C10"] = encoding_runner("C10", logic.fam_C10, {S, Cm})
     RUNNERS["C05"] = encoding_runner(
         "C05", union_family([tasks.fam_C01, tasks.fam_C02, tasks.fam_C03, resources.fam_C04,
                              optional.fam_C06, buffers.fam_C09, logic.fam_C10], 150),
-        {Cm}, {"soundness": False, "replay_per_problem": 2})
+        {Cm}, {"soundness": False, "replay_per_problem": 2}, large=frozenset({Cm}))
 
 
 register()
